@@ -130,17 +130,22 @@ fn misuse<S: Subject>(plan: &Plan, ctx: &Ctx, stats: &mut Stats) -> Result<(), F
 fn add<S: Subject>(jobs: &mut Vec<Box<dyn JobT>>, q: u64, t: u64) {
     let w = Weights { edit: 42, deliver: 26, redeliver: 4, merge: 14, snapshot: 8, merge_snapshot: 6, save_restore: 0, probe: 0 };
     let pc = PlanCfg::new(w.clone()).steps(5, 22).editors(2, 4);
+    let pc = pc.long_share(S::LONG);
     jobs.push(mk_job(format!("{}/correct use", S::name()), q, t, pc, Ctx::new(Disc::Causal), correct::<S>).floor("nontrivial", 0.05).boxed());
     let w2 = Weights { edit: 60, deliver: 20, redeliver: 2, merge: 8, snapshot: 6, merge_snapshot: 4, save_restore: 0, probe: 0 };
     let pc = PlanCfg::new(w2).steps(4, 16).editors(2, 3);
+    let pc = pc.long_share(S::LONG);
     jobs.push(mk_job(format!("{}/misuse: one actor at two replicas", S::name()), q, t, pc, Ctx::new(Disc::Causal), misuse::<S>).floor("nontrivial", 0.05).boxed());
 }
 
 pub fn property() -> Property {
     let mut jobs: Vec<Box<dyn JobT>> = Vec::new();
     add::<SOrswot>(&mut jobs, 8000, 150_000);
+    add::<SOrswotBig>(&mut jobs, 2000, 37500);
     add::<MapOrswot>(&mut jobs, 8000, 150_000);
+    add::<MapOrswotBig>(&mut jobs, 2000, 37500);
     add::<MapMVReg>(&mut jobs, 8000, 150_000);
+    add::<MapMVRegBig>(&mut jobs, 2000, 37500);
     add::<MapMapMVReg>(&mut jobs, 4000, 60_000);
     {
         // LWWReg: correct use (unique markers) is always accepted in both directions
